@@ -152,4 +152,4 @@ def register(reg):
                                     ('this-transaction', 'tx_num == old(self.state.tx_count) + cur_t and tx_numb == leu_enc(tx_num, 8)[0:5]')],
                         modifies=['self.utxo_cache', 'self.g_put', 'hashXs']),
         },
-        props=['C01', 'C02', 'C15'])
+        props=['C01', 'C02', 'C15', 'C03'])
